@@ -940,6 +940,34 @@ type finder struct {
 	found  *ast.CallExpr
 	tg     *target
 	multi  map[*ast.CallExpr]bool // calls allowed to yield several values (sole RHS / sole result)
+	// a && / || chain evaluated first in the statement, one of whose later operands
+	// starts with a call that could be expanded if that operand stood alone
+	chain   ast.Expr
+	chainOp token.Token
+	ops     []ast.Expr
+	opIdx   int
+}
+
+func flattenOp(e ast.Expr, op token.Token) []ast.Expr {
+	switch x := e.(type) {
+	case *ast.BinaryExpr:
+		if x.Op == op {
+			return append(flattenOp(x.X, op), flattenOp(x.Y, op)...)
+		}
+	case *ast.ParenExpr:
+		if b, ok := x.X.(*ast.BinaryExpr); ok && b.Op == op {
+			return flattenOp(b, op)
+		}
+	}
+	return []ast.Expr{e}
+}
+
+func joinOp(ops []ast.Expr, op token.Token) ast.Expr {
+	e := ops[0]
+	for _, o := range ops[1:] {
+		e = &ast.BinaryExpr{X: e, Op: op, Y: o}
+	}
+	return e
 }
 
 func (w *finder) expr(e ast.Expr, cond bool) {
@@ -961,6 +989,27 @@ func (w *finder) expr(e ast.Expr, cond bool) {
 			w.impure = true
 		}
 	case *ast.BinaryExpr:
+		if (x.Op == token.LAND || x.Op == token.LOR) && !cond && !w.impure && w.chain == nil {
+			ops := flattenOp(x, x.Op)
+			w.expr(ops[0], false)
+			if w.found != nil {
+				return
+			}
+			for i := 1; i < len(ops); i++ {
+				sub := &finder{in: w.in, ctx: w.ctx, multi: map[*ast.CallExpr]bool{}}
+				sub.chain = x // no nested chains
+				sub.expr(ops[i], false)
+				if sub.found != nil {
+					w.chain, w.chainOp, w.ops, w.opIdx = x, x.Op, ops, i
+					w.impure = true // nothing after the chain may move
+					return
+				}
+				if sub.impure {
+					w.impure = true
+				}
+			}
+			return
+		}
 		w.expr(x.X, cond)
 		if x.Op == token.LAND || x.Op == token.LOR {
 			w.expr(x.Y, true)
@@ -1191,6 +1240,12 @@ func (in *inliner) processList(list []ast.Stmt, ctx *fctx) []ast.Stmt {
 			out = append(out, s)
 			continue
 		}
+		if ifs, ok := s.(*ast.IfStmt); ok && ifs.Init == nil {
+			in.splitAnd(ifs, ctx, 0) // nested ifs read better than a flag variable
+		}
+		if fs, ok := s.(*ast.ForStmt); ok {
+			in.loopCond(fs, ctx)
+		}
 		pre, cur := in.hoistStmt(s, s.Pos(), ctx)
 		out = append(out, pre...)
 		if cur != nil {
@@ -1202,6 +1257,41 @@ func (in *inliner) processList(list []ast.Stmt, ctx *fctx) []ast.Stmt {
 		}
 	}
 	return out
+}
+
+// loopCond: `for init; helper(x); post { body }` is `for init; ; post { if !helper(x) { break }; body }`;
+// the test is then an ordinary statement of the body.
+func (in *inliner) loopCond(fs *ast.ForStmt, ctx *fctx) {
+	if fs.Cond == nil || !fs.Body.Lbrace.IsValid() {
+		return
+	}
+	has := false
+	ast.Inspect(fs.Cond, func(n ast.Node) bool {
+		if call, ok := n.(*ast.CallExpr); ok && call.Pos().IsValid() {
+			if tg := in.targetOf(call, ctx); tg != nil && tg.cand.why == "" {
+				has = true
+			}
+		}
+		return !has
+	})
+	if !has {
+		return
+	}
+	test := &ast.IfStmt{If: fs.Body.Lbrace, Cond: &ast.UnaryExpr{Op: token.NOT, X: &ast.ParenExpr{X: fs.Cond}},
+		Body: &ast.BlockStmt{Lbrace: fs.Body.Lbrace, List: []ast.Stmt{&ast.BranchStmt{Tok: token.BREAK}}}}
+	in.orig[test] = in.root(fs)
+	// the body was already processed; process the new test as a statement of its own
+	pre, cur := in.hoistStmt(test, fs.Body.Lbrace, ctx)
+	if len(pre) == 0 {
+		// the call sits behind something that cannot move: try the && / || forms
+		if ue, ok := test.Cond.(*ast.UnaryExpr); ok {
+			_ = ue
+		}
+		return
+	}
+	fs.Cond = nil
+	fs.Body.List = append(append(pre, cur), fs.Body.List...)
+	ctx.modified = true
 }
 
 // elseChain: `else if init; cond {...}` is `else { if init; cond {...} }`; in
@@ -1227,6 +1317,47 @@ func (in *inliner) hoistStmt(cur ast.Stmt, pos token.Pos, ctx *fctx) (out []ast.
 	for iter := 0; iter < 8 && cur != nil; iter++ {
 		w := &finder{in: in, ctx: ctx, multi: map[*ast.CallExpr]bool{}}
 		w.stmt(cur)
+		if w.found == nil && w.chain != nil {
+			// c := a && helper(x)  ->  var c bool; if a { <helper expanded>; c = r }
+			if in.chainDeclaredInside(w, cur, ctx) {
+				break
+			}
+			in.seq++
+			flag := ident(fmt.Sprintf("__pdsa%d_c", in.seq))
+			in.genType[flag] = types.Typ[types.Bool]
+			inner := &ast.AssignStmt{Lhs: []ast.Expr{ident(flag.Name)}, Tok: token.ASSIGN, Rhs: []ast.Expr{joinOp(w.ops[w.opIdx:], w.chainOp)}}
+			pre2, rest2 := in.hoistStmt(inner, pos, ctx)
+			if len(pre2) == 0 {
+				break
+			}
+			body := append(pre2, rest2)
+			decl := varDecl(flag.Name, ident("bool"), nil)
+			var guard ast.Stmt
+			if w.chainOp == token.LAND {
+				guard = &ast.IfStmt{Cond: joinOp(w.ops[:w.opIdx], token.LAND), Body: &ast.BlockStmt{List: body}}
+				out = append(out, decl, guard)
+			} else {
+				first := &ast.AssignStmt{Lhs: []ast.Expr{ident(flag.Name)}, Tok: token.ASSIGN, Rhs: []ast.Expr{joinOp(w.ops[:w.opIdx], token.LOR)}}
+				guard = &ast.IfStmt{Cond: &ast.UnaryExpr{Op: token.NOT, X: ident(flag.Name)}, Body: &ast.BlockStmt{List: body}}
+				out = append(out, decl, first, guard)
+			}
+			in.orig[guard] = in.root(cur)
+			done := false
+			chain := w.chain
+			astutil.Apply(cur, func(c *astutil.Cursor) bool {
+				if c.Node() == ast.Node(chain) {
+					c.Replace(flag)
+					done = true
+					return false
+				}
+				return !done
+			}, nil)
+			if !done {
+				break
+			}
+			ctx.modified = true
+			continue
+		}
 		if w.found == nil || in.declaredInside(w.found, cur, ctx) {
 			break
 		}
@@ -1246,6 +1377,27 @@ func (in *inliner) hoistStmt(cur ast.Stmt, pos token.Pos, ctx *fctx) (out []ast.
 		cur = next
 	}
 	return out, cur
+}
+
+// chainDeclaredInside: an identifier used by the chain is declared within s
+// (the chain cannot be evaluated in front of s then).
+func (in *inliner) chainDeclaredInside(w *finder, s ast.Stmt, ctx *fctx) bool {
+	info := ctx.pkg.TypesInfo
+	bad := false
+	ast.Inspect(w.chain, func(n ast.Node) bool {
+		if id, ok := n.(*ast.Ident); ok && s.Pos().IsValid() && w.chain.Pos().IsValid() {
+			if o := in.use(info, id); o != nil && o.Pos().IsValid() && o.Pos() >= s.Pos() && o.Pos() < s.End() &&
+				!(o.Pos() >= w.chain.Pos() && o.Pos() < w.chain.End()) {
+				if v, isVar := o.(*types.Var); !isVar || !v.IsField() {
+					if o.Parent() != nil && o.Parent() != ctx.pkg.Types.Scope() && o.Parent() != types.Universe {
+						bad = true
+					}
+				}
+			}
+		}
+		return !bad
+	})
+	return bad
 }
 
 func flattenAnd(e ast.Expr) []ast.Expr {
